@@ -3,7 +3,8 @@ use vstd::prelude::*;
 use vstd::std_specs::convert::FromSpecImpl;
 use crate::ffi;
 use crate::ffi::ParamError;
-use crate::rodbus::client::{FfiChannel, FfiChannelError, RequestParam, WriteMultiple, FfiCall};
+use crate::rodbus::client::{FfiChannel, FfiChannelError, RequestParam, WriteMultiple, FfiCall, ClientState};
+use crate::rodbus;
 use crate::rodbus::{AddressRange, UnitId};
 use crate::sfio_promise;
 use crate::rodbus::{InvalidRange, InvalidRequest};
@@ -90,3 +91,37 @@ pub open spec fn one_call(old_ch: &ClientChannel, new_ch: &ClientChannel, c: Ffi
 //@|    ensures one_call(old(channel), final(channel), FfiCall::Disable),
 //@fn ffi/rodbus-ffi/src/client.rs | client_channel_set_decode_level | tags=C18,C20 | r24 r10
 //@|    ensures one_call(old(channel), final(channel), FfiCall::SetDecodeLevel(crate::helpers::conversions::spec_decode_level(level))),
+
+// [C18] each connection state is reported as its same-named counterpart (the wait states lose their duration, which C has no field for)
+pub open spec fn spec_client_state(x: crate::rodbus::client::ClientState) -> ffi::ClientState {
+    match x {
+        crate::rodbus::client::ClientState::Disabled => ffi::ClientState::Disabled,
+        crate::rodbus::client::ClientState::Connecting => ffi::ClientState::Connecting,
+        crate::rodbus::client::ClientState::Connected => ffi::ClientState::Connected,
+        crate::rodbus::client::ClientState::WaitAfterFailedConnect(_) => ffi::ClientState::WaitAfterFailedConnect,
+        crate::rodbus::client::ClientState::WaitAfterDisconnect(_) => ffi::ClientState::WaitAfterDisconnect,
+        crate::rodbus::client::ClientState::Shutdown => ffi::ClientState::Shutdown,
+    }
+}
+impl FromSpecImpl<crate::rodbus::client::ClientState> for ffi::ClientState {
+    open spec fn obeys_from_spec() -> bool { true }
+    open spec fn from_spec(x: crate::rodbus::client::ClientState) -> Self { spec_client_state(x) }
+}
+impl From<crate::rodbus::client::ClientState> for ffi::ClientState {
+//@fn ffi/rodbus-ffi/src/client.rs | From<ClientState> for ffi::ClientState::from | tags=C18
+}
+pub open spec fn spec_port_state(x: crate::rodbus::client::PortState) -> ffi::PortState {
+    match x {
+        crate::rodbus::client::PortState::Disabled => ffi::PortState::Disabled,
+        crate::rodbus::client::PortState::Wait(_) => ffi::PortState::Wait,
+        crate::rodbus::client::PortState::Open => ffi::PortState::Open,
+        crate::rodbus::client::PortState::Shutdown => ffi::PortState::Shutdown,
+    }
+}
+impl FromSpecImpl<crate::rodbus::client::PortState> for ffi::PortState {
+    open spec fn obeys_from_spec() -> bool { true }
+    open spec fn from_spec(x: crate::rodbus::client::PortState) -> Self { spec_port_state(x) }
+}
+impl From<crate::rodbus::client::PortState> for ffi::PortState {
+//@fn ffi/rodbus-ffi/src/client.rs | From<rodbus::client::PortState> for ffi::PortState::from | tags=C18
+}
